@@ -57,3 +57,82 @@ Fixpoint tprune (v : dnum) (j : json) : json :=
                end) l)
   | _ => j
   end.
+
+(* ------------------------------------------------------------------ per-file reading *)
+(* The same pruning, described file by file for a schema kept as separate
+   files with {"$ref": file} leaves (one shared object per file): a file that
+   can be reached from the root's "properties" through object values only is
+   pruned locally (its unavailable object-valued entries and list members are
+   dropped; references themselves are kept or dropped as a whole); every other
+   file is untouched.  No order of visits is mentioned. *)
+Section Local.
+  Variable files : list (str * json).
+
+  Definition ref_of (x : json) : option str :=
+    match x with
+    | JObj l => match assoc (Str "$ref") l with Some (JStr f) => Some f | _ => None end
+    | _ => None
+    end.
+
+  (* what a value stands for: the content of the referenced file, else itself *)
+  Definition target_of (x : json) : json :=
+    match ref_of x with
+    | Some f => match assoc f files with Some c => c | None => x end
+    | None => x
+    end.
+
+  Definition available (v : dnum) (x : json) : bool := in_range v (target_of x).
+
+  Fixpoint lprune (v : dnum) (j : json) : json :=
+    match j with
+    | JObj l =>
+        match ref_of j with
+        | Some _ => j
+        | None =>
+            JObj ((fix go (l : list (str * json)) : list (str * json) :=
+                     match l with
+                     | [] => []
+                     | (k, x) :: l' =>
+                         match target_of x with
+                         | JObj _ => if available v x then (k, lprune v x) :: go l' else go l'
+                         | JArr ms =>
+                             (k, JArr (filter (fun m => negb (is_obj (target_of m)) || available v m) ms)) :: go l'
+                         | _ => (k, x) :: go l'
+                         end
+                     end) l)
+        end
+    | _ => j
+    end.
+
+  (* files referenced from [j] through object values only *)
+  Fixpoint dict_refs (j : json) : list str :=
+    match j with
+    | JObj l =>
+        match ref_of j with
+        | Some f => [f]
+        | None => (fix go (l : list (str * json)) : list str :=
+                     match l with [] => [] | (_, x) :: l' => dict_refs x ++ go l' end) l
+        end
+    | _ => []
+    end.
+
+  Fixpoint reach (n : nat) (todo seen : list str) : list str :=
+    match n with
+    | O => seen
+    | S n' =>
+        match todo with
+        | [] => seen
+        | f :: todo' =>
+            if mem_str f seen then reach n' todo' seen
+            else match assoc f files with
+                 | Some c => reach n' (dict_refs c ++ todo') (f :: seen)
+                 | None => reach n' todo' seen
+                 end
+        end
+    end.
+
+  (* the store after pruning for version v from a root "properties" object *)
+  Definition pruned_store (v : dnum) (properties : json) (fuel : nat) : list (str * json) :=
+    let r := reach fuel (dict_refs properties) [] in
+    map (fun kv => (fst kv, if mem_str (fst kv) r then lprune v (snd kv) else snd kv)) files.
+End Local.
